@@ -193,6 +193,9 @@ def check(case):
         # cost tables are indexed by shared domain and value: these rewrites would need a rewritten table
         cfg = dict(cfg, var="first" if cfg["var"] == "max_regret" else cfg["var"], dom="min" if cfg["dom"] == "min_cost" else cfg["dom"])
         cfg.pop("costs", None)
+    if cfg.get("decision") and rw["r"] in ("R1", "R3"):
+        # the order of the decision domains names shared domains of the original model: these rewrites renumber them
+        cfg = {k: v for k, v in cfg.items() if k != "decision"}
     new, back = REWRITES[rw["r"]](pc, rw)
     nv = len(pc["idx"])
     op2 = op
